@@ -336,6 +336,15 @@ class Builder:
         ns = {"_rec": rec, "_MISSING": missing}
         exec(src, ns)
         f = ns["f"]
+        if t.id % 3 == 1:
+            # every third callback is a callable OBJECT that cannot be hashed (it defines __eq__ and no __hash__, as a
+            # dataclass instance does), with the same signature: it must be called like any function
+            src2 = "class C:\n    def __eq__(self, other):\n        return self is other\n    def __call__(self, %s):\n        _rec(dict(%s)%s)\n" % (
+                ", ".join(["%s=_MISSING" % n for n in names] + (["**_kw"] if t.varkw else [])),
+                ", ".join("%s=%s" % (n, n) for n in names),
+                ", _kw" if t.varkw else "")
+            exec(src2, ns)
+            f = ns["C"]()
         self.live[token] = f
         self.reg[id(f)] = token
         return f
